@@ -36,7 +36,11 @@ META = dict(
          "listen() that fails 0-2 times, deliveries executed by the first, second or third Receiver it builds) x the object a "
          "failing task function / failing dependency raises (ordinary; a ninth of the cases: falsy by __bool__ or __len__, "
          "unhashable, equal by value, BaseException that is no Exception, exception groups, a falsy NoResultError subclass, "
-         "one object raised by several executions); non-trivial iff some execution opened >= 2 yielding dependencies, or a "
+         "one object raised by several executions) x the kind of callable a task is registered with (ordinary async def / def; a "
+         "twelfth of the cases: functools.wraps decorators whose wrapper is async around sync or sync around async, "
+         "functools.partial objects, instances with a sync or async __call__, a plain def returning a coroutine / an object "
+         "with __await__ / a Future, an async def returning an un-awaited coroutine - the body behind a returned awaitable reports whether its dependencies were already "
+         "finalised when it ran); non-trivial iff some execution opened >= 2 yielding dependencies, or a "
          "dependency failed while opening, or the body timed out; distinct by case content",
     trusted_base=["model: coq/theories/Deps.v (hand-written from taskiq/receiver/receiver.py run_task/callback and "
                   "taskiq_dependencies/ctx.py close/resolver)",
@@ -56,6 +60,198 @@ Fixpoint bad (i : nat) (l : list (cfg * rctx * resolution * list eff)) : list na
 Eval vm_compute in bad 0%nat cases."""
 
 
+# --------------------------------------------------------------------------- the kind of callable a task is registered with
+FN_INLINE = ("async_wraps_sync", "async_wraps_async", "partial_async", "partial_sync", "callable_sync")
+FN_AWAITABLE = ("sync_wraps_async", "ret_coro", "ret_awaitable", "ret_future", "callable_async", "async_ret_coro")
+FN_ON_LOOP = ("async_wraps_sync", "async_wraps_async", "partial_async", "async_ret_coro")
+FN_POOL = ("sync_wraps_async", "sync_wraps_async", "sync_wraps_async", "ret_coro", "ret_awaitable", "ret_future",
+           "callable_async", "callable_async", "async_ret_coro", "async_wraps_sync", "async_wraps_async", "partial_async", "partial_sync",
+           "callable_sync", "callable_sync")
+FN_DESCR = {
+    "async_wraps_sync": "plain function under a decorator whose wrapper is async",
+    "async_wraps_async": "coroutine function under a decorator whose wrapper is async",
+    "partial_async": "functools.partial over a coroutine function",
+    "partial_sync": "functools.partial over a plain function",
+    "callable_sync": "instance with a plain __call__",
+    "sync_wraps_async": "coroutine function under a decorator that is not async-aware (plain wrapper)",
+    "ret_coro": "plain function returning a coroutine",
+    "ret_awaitable": "plain function returning an object with __await__",
+    "ret_future": "plain function returning a Future",
+    "callable_async": "instance with an async __call__",
+    "async_ret_coro": "coroutine function whose result is an un-awaited coroutine",
+}
+
+
+def add_callables(case, p=.085):
+    """the kind of callable a task is registered with (`fn` of a task spec, see deps_driver): about a twelfth of the
+    cases.  Picked and filled by a generator of its own seeded by the case content, so every other case of a seed is
+    exactly what it was before this kind of input existed."""
+    rr = L.case_rng(case, "fn")
+    if rr.random() >= p:
+        return case
+    path = case.get("path") or {}
+    # an InMemoryBroker that went through shutdown() has no thread pool any more (see add_path)
+    pool = [k for k in FN_POOL if k in FN_ON_LOOP] if (path.get("kind") == "inmemory" and "shutdown" in (path.get("life") or [])) \
+        else list(FN_POOL)
+    tasks = case["tasks"]
+    used = sorted({m["task"] for m in case["msgs"]})
+    chosen = [t for t in used if rr.random() < .75] or [rr.choice(used)]
+    for t in chosen:
+        tasks[t]["fn"] = rr.choice(pool)
+    for m in case["msgs"]:
+        fn = tasks[m["task"]].get("fn")
+        if fn in FN_AWAITABLE and not m.get("dur") and rr.random() < .6:
+            # the body behind the returned awaitable has awaits of its own (if anybody runs it)
+            m["dur"] = [rr.choice([0, 1000, 5000, 12000]) for _ in range(rr.choice([1, 1, 2]))]
+    return case
+
+
+def gen_case(r):
+    return add_callables(L.gen_case(r))
+
+
+def fn_grid():
+    """thorough tier: every callable kind x teardown style x how the task's own code ends x propagate x ack type, two
+    overlapping deliveries"""
+    out = []
+    for fn in FN_INLINE + FN_AWAITABLE:
+        for st in L.YIELDING:
+            for oc in ("return", "raise", "base", "noresult"):
+                for prop in (True, False):
+                    for ack in ("when_executed", "when_saved"):
+                        msgs = [{"task": 0, "start": 3000 * i, "pauses": [10000, None, 4000], "dur": [2000],
+                                 "ackable": "sync" if i == 0 else "async", "kw": True, "outcome": oc} for i in range(2)]
+                        out.append({"nodes": [{"style": st, "ctx": True, "subs": [], "swallow": False},
+                                              {"style": "coro", "ctx": False, "subs": [[0, True]], "swallow": False}],
+                                    "tasks": [{"deps": [[1, True]], "ctx": True, "sync": False, "fn": fn}], "msgs": msgs,
+                                    "propagate": prop, "ack": ack, "middleware": True, "via_inmemory": False})
+    return out
+
+
+def fold_inner(obs):
+    """When the framework itself runs the awaitable a registered callable handed back BEFORE it finalises any dependency
+    of that execution (i.e. as part of executing the task), that run is the end of the task function: the observation is
+    read as `task_start ... task_end <how the awaited body ended>`.  Anything of it that runs after the first teardown
+    stays what it is (`inner_*`) and is judged by `oracle`.  Indices of the log are kept."""
+    log = obs.get("log") or []
+    owner, first_close, inner = {}, {}, {}
+    for g, e in enumerate(log):
+        if e[0] == "enter":
+            owner[e[3]] = e[1]
+        elif e[0] == "close" and e[3] in owner:
+            first_close.setdefault(owner[e[3]], g)
+        elif e[0] in ("inner_start", "inner_end", "inner_raised", "future_awaited", "future_raised"):
+            inner.setdefault(e[1], []).append(g)
+    fold = {i for i, gs in inner.items() if any(log[g][0] in ("inner_end", "future_awaited") for g in gs)
+            and all(g < first_close.get(i, len(log)) for g in gs)}
+    if not fold:
+        return obs
+    new = [list(e) for e in log]
+    for g, e in enumerate(log):
+        if len(e) < 2 or e[1] not in fold:
+            continue
+        if e[0] == "task_end" and g < inner[e[1]][0]:
+            new[g] = ["handed_back", e[1]] + e[2:]
+        elif e[0] in ("inner_end", "future_awaited"):
+            new[g] = ["task_end", e[1], e[2]]
+        elif e[0] in ("inner_raised", "future_raised"):
+            new[g] = ["raised", e[1], e[2], "task"]
+        elif e[0] == "inner_start":
+            new[g] = ["awaited_by_framework", e[1]] + e[2:]
+    return dict(obs, log=new)
+
+
+def derive(c, o):
+    return L.derive(c, fold_inner(o))
+
+
+def inner_events(d):
+    """what ran of the body behind an awaitable the registered callable handed back"""
+    return [(g, e) for g, e in d.ev if e[0] in ("inner_start", "inner_end", "inner_raised")]
+
+
+def fn_profile(case, ex):
+    """evidence keys: which kinds of task callables were executed, and what became of a returned awaitable"""
+    keys = []
+    if not any(t.get("fn") for t in case["tasks"]):
+        return ["task callables: async def / def only"]
+    prop = bool(case.get("propagate", True))
+    for d in ex:
+        fn = case["tasks"][d.msg["task"]].get("fn")
+        if fn is None or d.body is None:
+            continue
+        keys.append("task callable: " + FN_DESCR[fn])
+        ret = [e for _, e in d.ev if e[0] == "returns_awaitable"]
+        if ret:
+            how = ("its body was run after a teardown" if inner_events(d) else
+                   "awaited by the framework before any teardown" if any(e[0] == "handed_back" for _, e in d.ev) else
+                   "its outcome was taken out after a teardown" if any(e[0] == "future_awaited" for _, e in d.ev) else
+                   "nothing of it was run")
+            keys.append("returned awaitable (%s): %s" % (ret[0][3], how))
+            if d.closes:
+                keys.append("returned awaitable over open dependencies: body would end with %s, propagate=%s" % (
+                    d.msg.get("outcome", "return"), prop))
+        elif d.closes:
+            keys.append("task callable of another kind over open dependencies: %s, propagate=%s" % (d.outcome, prop))
+    return keys
+
+
+def oracle(case, d):
+    """C12 over one execution: the clauses of deps_lib.oracle_c12 plus the two that need the events of task code running
+    outside the call of the registered callable and the stored result.
+      * everything the execution runs of the task's code has finished before the first dependency is finalised;
+      * the exception that ends up as the stored error of the execution is the one thrown into the dependencies when
+        propagation is enabled (a stored error with propagation disabled / no stored error: the clauses of oracle_c12)."""
+    out = list(L.oracle_c12(case, d))
+    prop = bool(case.get("propagate", True))
+    teardown = [g for g, _, _ in d.closes] + [g for g, _ in d.closed]
+    if teardown:
+        first = min(teardown)
+        late = [(g, e) for g, e in inner_events(d) if g > first]
+        if late:
+            started = [e for _, e in late if e[0] == "inner_start"]
+            out.append(("code of the task was still running after a dependency of the execution had been finalised",
+                        dict(first_teardown_at=first, task_code_after_it=[[g, e[0]] + e[2:3] for g, e in late],
+                             dependencies_already_finalised_when_it_started=(started[0][3] if started else None)),
+                        "everything the execution runs of the task's code happens before the first teardown",
+                        {"kind": "late_body"}))
+    want0 = d.expected_err if (prop and d.error_found) else None
+    for _, _, summary in d.saves[:1]:
+        if not (prop and summary.get("is_err") and summary.get("err")):
+            continue
+        for g, inst, saw in d.closes:
+            if (saw is None) != (want0 is None) or (saw is not None and saw != want0):
+                continue                 # already reported by oracle_c12
+            if saw != summary["err"]:
+                out.append(("the exception stored as the error of the execution was not thrown into the dependency although "
+                            "propagate_exceptions=True",
+                            dict(instance=inst, node=d.inst_node[inst], style=case["nodes"][d.inst_node[inst]]["style"],
+                                 saw=saw, stored_error=summary["err"]), summary["err"], {"kind": "propagation"}))
+    return out
+
+
+_lib_reductions = L.reductions
+
+
+def reductions(case):
+    """deps_lib's one-step simplifications plus those of the callable kind"""
+    out = []
+    for t, spec in enumerate(case["tasks"]):
+        if spec.get("fn"):
+            c = json.loads(json.dumps({k: v for k, v in case.items() if k != "_comment"}))
+            del c["tasks"][t]["fn"]
+            out.append(c)
+            simple = "sync_wraps_async" if spec["fn"] in FN_AWAITABLE else "async_wraps_sync"
+            if spec["fn"] != simple:
+                c = json.loads(json.dumps({k: v for k, v in case.items() if k != "_comment"}))
+                c["tasks"][t]["fn"] = simple
+                out.append(c)
+    return out + _lib_reductions(case)
+
+
+L.reductions = reductions        # shrink_failures looks it up in its own module
+
+
 def nontrivial(case, ex):
     for d in ex:
         if len(d.opens) >= 2 or d.fail or d.outcome == "cancelled":
@@ -72,7 +268,7 @@ def explore(ctx, rep, cases, label):
             rep.fail("driver crashed (an observation shim or the real code raised outside any execution)", c,
                      observed=o["_crash"])
             continue
-        ex, errs = L.derive(c, o)
+        ex, errs = derive(c, o)
         rep.case(c, nontrivial(c, ex))
         for e in errs:
             rep.fail("harness consistency: " + e, c, observed=e)
@@ -84,10 +280,10 @@ def explore(ctx, rep, cases, label):
         rep.count("ack:%s" % c.get("ack", "when_saved"))
         for key in L.path_profile(c) + L.live_profile(c, o, ex):
             rep.count(key)
-        for key in L.sharing_profile(c, ex):
+        for key in L.sharing_profile(c, ex) + fn_profile(c, ex):
             rep.count(key)
         for d in ex:
-            for what, observed, expected, sig in L.oracle_c12(c, d):
+            for what, observed, expected, sig in oracle(c, d):
                 rep.fail(what, c, observed=dict(execution=d.i, **observed), expected=expected, sig=sig)
                 rep.count("oracle:" + sig["kind"] + (":known" if L.sig_subcontext_teardown_order(dict(sig=sig)) else ""))
             for e in d.effs:
@@ -111,9 +307,9 @@ def explore(ctx, rep, cases, label):
 
 
 def fails_of(c, o):
-    ex, errs = L.derive(c, o)
+    ex, errs = derive(c, o)
     return [(what, dict(execution=d.i, **observed), expected, sig)
-            for d in ex for what, observed, expected, sig in L.oracle_c12(c, d)]
+            for d in ex for what, observed, expected, sig in oracle(c, d)]
 
 
 def corpus_known(ctx, rep):
@@ -139,17 +335,17 @@ def run(ctx):
         explore(ctx, rep, corpus, "corpus")
     known = corpus_known(ctx, rep)
     r = ctx.sub_rng("gen")
-    cases = [L.gen_case(r) for _ in range(ctx.n(1200, 40000))]
+    cases = [gen_case(r) for _ in range(ctx.n(1200, 40000))]
     broken = explore(ctx, rep, cases, "main")
     if not ctx.quick:
-        grid = L.grid_cases()
+        grid = L.grid_cases() + fn_grid()
         rep.extra["systematic_grid_cases"] = len(grid)
         broken = explore(ctx, rep, grid, "grid") or broken
     sigs = {"subcontext_teardown_order": L.sig_subcontext_teardown_order}
     unexplained = [f for f in rep.failures if not L.sig_subcontext_teardown_order(f)]
     if (broken or any(not o["ok"] for o in rep.obligations)) and not unexplained:
         r2 = ctx.sub_rng("search")
-        explore(ctx, rep, [L.gen_case(r2) for _ in range(ctx.n(3000, 30000))], "search")
+        explore(ctx, rep, [gen_case(r2) for _ in range(ctx.n(3000, 30000))], "search")
     L.shrink_failures(ctx, rep, fails_of, L.sig_subcontext_teardown_order)
     rep.extra["known_finding_reproduced_by_corpus"] = bool(known.get("subcontext_teardown_order"))
     return rep.finish(sigs, known)
@@ -163,7 +359,7 @@ def replay(ctx, path):
     if "_crash" in obs:
         print("implementation: driver crashed\n" + obs["_crash"])
         return 1
-    ex, errs = L.derive(c, obs)
+    ex, errs = derive(c, obs)
     rc = 0
     lits = []
     if obs.get("live"):
@@ -173,7 +369,11 @@ def replay(ctx, path):
             d.i, [(x, d.inst_node[x]) for x in d.opens], [(x[1], d.inst_node[x[1]], x[2]) for x in d.closes],
             L.coq_tree(c, d)))
         print("  observed effects:", "; ".join(d.effs))
-        for what, observed, expected, sig in L.oracle_c12(c, d):
+        if inner_events(d):
+            print("  code of the task run outside the call of the registered callable:",
+                  "; ".join("%s@%d %s" % (e[0], g, e[2:]) for g, e in inner_events(d)),
+                  "(first teardown @%s)" % min([x[0] for x in d.closes] or [None], key=lambda v: (v is None, v)))
+        for what, observed, expected, sig in oracle(c, d):
             known = L.sig_subcontext_teardown_order(dict(sig=sig))
             print("  %s: %s  observed=%s expected=%s" % ("KNOWN-FINDING" if known else "VIOLATED", what, observed, expected))
             if not known:
